@@ -863,6 +863,25 @@ def lincomb_suite(chk, w, rule, nmax, order=1, ns=None, fixed=True):
                 cs.expect(f, "linearCombination: coefficient k on interval I is built from c_i and S_i's coefficient k "
                              "on I for every S_i supported there, zero elsewhere", case, o, ok,
                           "specified dependence (%s)" % why)
+        # the value: literal coefficients 2, -3, 5 - every result coefficient is exactly sum_i k_i * S_i's coefficient
+        kv = [2, -3, 5]
+        for wins in (combos if n <= 3 else [c_ for c_ in combos if len(c_) <= 2]):
+            names = ["s%d" % i for i in range(len(wins))]
+            splines = Vec([w.spline_on(nm, order, grid, *wn) for nm, wn in zip(names, wins)])
+            ks = Vec([Sc(kv[i]) for i in range(len(wins))])
+            spec = lambda I, p: frozenset(("c", names[i], I, p) for i, wn in enumerate(wins) if wn[0] <= I and I + 1 < wn[1])
+            lspec = lambda I, p: {("c", names[i], I, p): kv[i] for i, wn in enumerate(wins) if wn[0] <= I and I + 1 < wn[1]}
+            case = dict(order=order, n=n, windows=list(wins), coefficients=kv[:len(wins)])
+            for f, argv in ((fcoll, [box(ks), box(splines)]),
+                            (fiter, [Iter(ks, 0), Iter(ks, len(wins)), Iter(splines, 0), Iter(splines, len(wins))])):
+                o = w.call(f, None, argv)
+                ok, why = False, repr(o)
+                if o.kind == "val" and isinstance(val(o.v), Obj):
+                    ok, why = valid_spline(w, val(o.v), n)
+                    if ok:
+                        ok, why = _expect_coeffs(spline_view(w, val(o.v)), n, spec, order, lspec, None)
+                cs.expect(f, "linearCombination with literal coefficients: every result coefficient is exactly sum_i k_i times "
+                             "S_i's coefficient of the same interval and power", case, o, ok, "(%s)" % why)
         # argument checks (C11): equally many (at least one) coefficients and splines
         for nc in range(0, 4):
             for ns in range(0, 4):
